@@ -391,6 +391,8 @@ class Calls(Interp):
             self.unsupported(node, "inlining depth (recursion?) at %s" % key)
         if key is not None:
             self.inlined.add(key)
+        if isinstance(f.node, ast.FunctionDef) and is_trivial_body(f.node):
+            return SV(Val.none, "none")     # `pass` bodies (abstract base methods): no effect
         locs = self.bind_args(f, args, kwargs, node, star, dstar)
         fr = Frame(f, locs)
         self.st.frames.append(fr)
@@ -1557,6 +1559,13 @@ class Calls(Interp):
     def sp_astype(self, args, kwargs, node):
         return SV(self.to_term(args[0], node), self.const_str(args[1], node))
 
+    def sp_deliver(self, args, kwargs, node):
+        """deliver(H, targets, event, n): H after sending `event` to targets[0..n) in order"""
+        return PRaw(deliver(args[0].t, self.as_seq(args[1], node), args[2].e, self.as_int(args[3], node)))
+
+    def sp_hsel(self, args, kwargs, node):
+        return PHist(args[0].t[self.refof(args[1], node)])
+
     def sp_hstore(self, args, kwargs, node):
         """HIST array with one object's history replaced"""
         return PRaw(z3.Store(args[0].t, self.refof(args[1], node), args[2].h))
@@ -1614,11 +1623,33 @@ class LazyMapV(Value):
         saved = eng.spec_mode
         if isinstance(self.f, BuiltinV) and self.f.name in ("str", "repr", "len"):
             body = eng.to_term(eng.builtin_call(self.f.name, [eng.from_term(seq[j], et)], {}, node), node)
+        elif isinstance(self.f, MethodCallerV) and et in eng.reg.shapes:
+            # map(methodcaller(name, *a, **k), sinks): one identical call event per element, in sequence order
+            c = eng.reg.shape_method(et, self.f.name)
+            if c is None or c.event is not True or c.exsures is not None or c.ensures or c.modifies or c.requires:
+                raise Unsupported("%s: map(methodcaller(%s)) over %s needs a plain event sink" % (eng.target_name, self.f.name, et))
+            eng.used_contracts.add(c.target)
+            pseq, kw = eng.call_payload(self.f.args, self.f.kwargs, node, self.f.star, self.f.dstar)
+            e = Event.ev(z3.StringVal(self.f.name), pseq, kw)
+            eng.set_comp("$hist", deliver(eng.comp("$hist"), seq, e, z3.Length(seq)))
+            eng.set_comp("$G", so.fresh("map_G", GHist))
+            eng.assume(z3.Length(out) == z3.Length(seq))
+            return PSeq(out)
         else:
             raise Unsupported("%s: map() of a non-builtin over a symbolic sequence needs a loop contract" % eng.target_name)
         eng.assume(z3.Length(out) == z3.Length(seq))
         eng.assume(z3.ForAll([j], z3.Implies(z3.And(0 <= j, j < z3.Length(seq)), out[j] == body), patterns=[out[j]]))
         return PSeq(out)
+
+
+def is_trivial_body(fnode):
+    for st in fnode.body:
+        if isinstance(st, ast.Pass):
+            continue
+        if isinstance(st, ast.Expr) and isinstance(st.value, ast.Constant):
+            continue
+        return False
+    return True
 
 
 def _minus_one(t):
@@ -1663,6 +1694,24 @@ _sorted_keys = z3.Function("sorted_keys", KwMap, SeqV)
 _hist_len = z3.Function("hist_len", Hist, I)
 _str_encode = z3.Function("str_encode", S, SeqV, S)
 _bytes_decode = z3.Function("bytes_decode", S, SeqV, S)
+
+
+deliver = z3.Function("deliver", so.HistArr, SeqV, Event, I, so.HistArr)
+
+
+def deliver_axioms():
+    H = z3.Const("dH", so.HistArr)
+    s_ = z3.Const("ds", SeqV)
+    e = z3.Const("de", Event)
+    i = z3.Int("di")
+    prev = deliver(H, s_, e, i)
+    r = Val.r(s_[i])
+    return [
+        z3.ForAll([H, s_, e], deliver(H, s_, e, 0) == H),
+        z3.ForAll([H, s_, e, i], z3.Implies(z3.And(i >= 0, i < z3.Length(s_)),
+                  deliver(H, s_, e, i + 1) == z3.Store(prev, r, Hist.snoc(prev[r], e))),
+                  patterns=[deliver(H, s_, e, i + 1)]),
+    ]
 
 
 def set_card(m):
